@@ -699,6 +699,33 @@ def dao_alt_ancestor(prog: Program) -> RuleResult:
         r.check(how[side] == "mro" or how["writer"] != "mro", f"from_dao/to_dao#{side}-scans-the-mro", site(f), how[side], "the alternatively mapped ancestor is looked for along the MRO",
                 f"the {side} looks at {('the immediate base class only' if how[side] == 'bases' else 'something else than the MRO')} while the writer scans the MRO: for SportsCar(Car(Vehicle)) with Vehicle "
                 "alternatively mapped by a mapping that renames a field, the value stored through the mapping is not handed to the constructor and the default comes back")
+    # ... and both take the *nearest* one: with two alternatively mapped ancestors (SensorMapping <- CameraMapping above StereoCamera) the object
+    # passes through the mapping of the nearest - the one whose DAO it inherits its columns from
+    for side, f in sides.items():
+        if how[side] != "mro":
+            continue
+        far = None
+        for x in walk_local(f.node):
+            if isinstance(x, ast.Call) and isinstance(x.func, ast.Attribute) and x.func.attr == "pop" and not x.args:
+                far = far or x
+            if isinstance(x, ast.Subscript) and isinstance(x.slice, ast.UnaryOp) and isinstance(x.slice.op, ast.USub) and isinstance(x.slice.operand, ast.Constant) and x.slice.operand.value == 1:
+                far = far or x
+            if isinstance(x, ast.Call) and isinstance(x.func, ast.Name) and x.func.id == "reversed" and x.args and "__mro__" in src(x.args[0]):
+                far = far or x
+        scans = [x for x in walk_local(f.node) if isinstance(x, (ast.For, ast.comprehension)) and "__mro__" in src(x.iter)]
+        loops = [x for x in scans if isinstance(x, ast.For)]
+        # a loop that records a match has to stop at it
+        overwrites = None
+        for lp in loops:
+            stores = [y for y in ast.walk(lp) if isinstance(y, ast.Assign) and any(isinstance(t, ast.Name) for t in y.targets) and any(isinstance(z, ast.Name) and z.id == getattr(lp.target, "id", None) for z in ast.walk(y.value))]
+            stops = [y for y in ast.walk(lp) if isinstance(y, (ast.Break, ast.Return))]
+            if stores and not stops:
+                overwrites = overwrites or stores[0]
+        bad = far or overwrites
+        r.check(bad is None, f"from_dao/to_dao#{side}-takes-the-nearest", site(f, bad) if bad is not None else site(f), src(bad)[:70] if bad is not None else f"{len(scans)} scan(s) of the MRO",
+                "the first alternatively mapped ancestor along the MRO is taken",
+                f"the {side} takes the last match of its MRO scan (`{src(bad)[:50] if bad is not None else ''}`): below two alternatively mapped ancestors the object is mapped through the root mapping "
+                "while its DAO inherits the columns of the nearer one - to_dao reads a column the object does not have")
     return r
 
 
